@@ -385,6 +385,17 @@ def imager_regen(repo):
     if len(loop) != 1:
         raise Unsupported("fit: expected exactly one loop over the diagrams")
     ifs = [st for st in loop[0].body if isinstance(st, ast.If)]
+    # the statements of the loop body that are not running-extreme updates are pinned as text: a private copy is taken
+    # BEFORE the in-place skew (so the caller's diagram is never written), then column minima / maxima
+    rest = [st for st in loop[0].body if not (isinstance(st, ast.If) and ast.unparse(st.test).strip() != "skew")]
+    want = ["pers_dgm = np.copy(pers_dgm)",
+            "if skew:\n    pers_dgm[:, 1] = pers_dgm[:, 1] - pers_dgm[:, 0]",
+            "min_b, min_p = pers_dgm.min(axis=0)",
+            "max_b, max_p = pers_dgm.max(axis=0)"]
+    if ast.unparse(loop[0].target) != "pers_dgm" or ast.unparse(loop[0].iter) != "pers_dgms" or len(rest) != len(want) or \
+            any(ast.dump(a) != ast.dump(ast.parse(w).body[0]) for a, w in zip(rest, want)):
+        raise Unsupported("line %d: fit: the loop over the diagrams is no longer [copy; skew the copy in place; column min; column max; "
+                          "four running-extreme updates]: %s" % (loop[0].lineno, " / ".join(ast.unparse(a).split("\n")[0] for a in rest)[:300]))
     names = ("min_birth", "max_birth", "min_pers", "max_pers")
     env = {"min_birth": V("num", "mnb"), "max_birth": V("num", "mxb"), "min_pers": V("num", "mnp"), "max_pers": V("num", "mxp"),
            "min_b": V("num", "a"), "max_b": V("num", "b"), "min_p": V("num", "c"), "max_p": V("num", "d")}
